@@ -160,7 +160,12 @@ Record rules := mkRules {
   rm_phasing : tagk -> call -> call;        (* body of _remove_existing_phasing for one target call *)
   chg_order : list nat -> list nat;         (* allele order assigned by the genotype-change branch,
                                                given the ascending genotype *)
-  unset_hp : list hpitem                    (* what an HP value assigned None reads back as *)
+  unset_hp : list hpitem                    (* what the HP value of an unphased target call reads back as:
+                                               current code assigns None, which pysam writes as an empty string
+                                               (or a NUL byte when no sample of the record has a value) and reads
+                                               back as (None,) -- or as ('.',) in the last column; the harness
+                                               compares the two forms as equal, see canon_hp -- ; the repaired
+                                               code assigns "." *)
 }.
 
 (* the PS branch of _remove_existing_phasing *)
